@@ -144,6 +144,45 @@ def trim_shard_text(pairs):
     return "\n".join(lines)
 
 
+def position_sweep(rng):
+    import pypika_tortoise as P
+    from pypika_tortoise import functions as fn, terms as T, Interval
+    from genobj import QUERY_CLASSES, QNAMES
+    fails, n = [], 0
+    samples = [dict(days=1, hours=2), dict(years=1, months=3), dict(hours=5), dict(minutes=7, seconds=30), dict(days=2, microseconds=500), dict(quarters=2),
+               dict(weeks=3), dict(seconds=-4)]
+    t, u = P.Table("t"), P.Table("u")
+    positions = {
+        "function-arg": lambda qc, iv: qc.from_(t).select(T.Function("DATE_ADD", t.dt, iv)),
+        "function-arg-first": lambda qc, iv: qc.from_(t).select(fn.Coalesce(iv, t.dt)),
+        "nested-function-arg": lambda qc, iv: qc.from_(t).select(fn.Coalesce(T.Function("DATE_SUB", t.dt, iv), t.x)),
+        "arith-right": lambda qc, iv: qc.from_(t).select(t.dt + iv),
+        "arith-in-function": lambda qc, iv: qc.from_(t).select(fn.Max(t.dt - iv)),
+        "criterion": lambda qc, iv: qc.from_(t).select(t.a).where(t.dt > T.Function("NOW") - iv),
+        "aggregate-arg": lambda qc, iv: qc.from_(t).select(fn.Sum(iv)),
+        "in-subquery": lambda qc, iv: qc.from_(t).select(t.a).where(t.a.isin(qc.from_(u).select(u.a).where(u.dt < u.x + iv))),
+        "set-operand": lambda qc, iv: qc.from_(t).select(t.dt + iv).union(qc.from_(u).select(T.Function("F", iv))),
+        "update-set": lambda qc, iv: qc.update(t).set(t.dt, t.dt + iv).where(t.id == 1),
+        "case-branch": lambda qc, iv: qc.from_(t).select(P.Case().when(t.a == 1, t.dt + iv).else_(T.Function("G", t.dt, iv))),
+        "analytic-arg": lambda qc, iv: qc.from_(t).select(T.AnalyticFunction("LAG", t.dt - iv).over(t.a)) if hasattr(T, "AnalyticFunction") else None,
+    }
+    for qc in QUERY_CLASSES:
+        for kw in samples:
+            lit = Interval(**kw).get_sql(qc.SQL_CONTEXT)
+            for pname, f in positions.items():
+                try:
+                    q = f(qc, Interval(**kw))
+                    if q is None:
+                        continue
+                    sql = q.get_sql(qc.SQL_CONTEXT)
+                except Exception:
+                    continue
+                n += 1
+                if sql.count("INTERVAL") == 0 or sql.count(lit) != sql.count("INTERVAL"):
+                    fails.append({"kind": "interval-in-statement", "class": QNAMES[qc], "position": pname, "args": kw, "literal": lit, "sql": sql})
+    return fails, n
+
+
 def check(run: core.Run):
     rng = random.Random(run.seed)
     proofs_ok = core.proof_stage(run, "Props/C18.v", "Props.C18", THEOREMS, extra_targets=["Model/Interval.v", "Ref/IntervalRead.v", "Base/Codes.v"])
@@ -195,6 +234,12 @@ def check(run: core.Run):
     else:
         corr_broken.append("model files do not build")
 
+    # ---- the literal inside statements: wherever an Interval stands in a statement of a query class, the text written there is the literal
+    #      Interval.get_sql gives for that class's dialect (whose reading the cases above check in Coq)
+    pos_fail, n_pos = position_sweep(rng)
+    for pf in pos_fail[:3]:
+        run.violation("an interval inside a statement is not written in the statement's dialect form: %s under %s: expected the literal %r in %r"
+                      % (pf["position"], pf["class"], pf["literal"], pf["sql"][:300]), pf)
     # ---- verdict
     for pf in pfails[:5]:
         run.violation("rendered interval does not denote its arguments: Interval(%s) under %s -> %r" %
@@ -226,7 +271,7 @@ def check(run: core.Run):
         "exhaustive_part": "all 7-tuples over the value set with <= %d non-zero components" % (2 if run.tier == "quick" else 3),
         "agree_model_impl": n_agree, "inside_hypotheses": n_inside, "pcheck_true_inside": n_pc,
         "trim_strings": len(tpairs), "mismatches": len(mismatches),
-        "programs": len(cases), "disagreements_checked": len(mismatches),
+        "programs": len(cases), "disagreements_checked": len(mismatches), "interval_positions_in_statements": n_pos,
     })
     run.assumptions += [
         "re.sub on the pinned pattern behaves as Model.Interval.trim (checked on %d strings this run)" % len(tpairs),
